@@ -8,6 +8,7 @@ import (
 	"bytes"
 	"fmt"
 	"math"
+	"math/big"
 	"strconv"
 	"strings"
 	"unicode/utf8"
@@ -133,11 +134,19 @@ func FormatNumber(value float64, picture string, format DecimalFormat) (string, 
 		return vars.Prefix + format.Infinity + vars.Suffix, nil
 	}
 
+	// The scaling below (percent, per-mille, mantissa) is done in
+	// floating point to find the exponent; the digits are then
+	// taken from the original value shifted by the same power of
+	// ten with exact arithmetic (see roundShifted).
+	original, shift := value, 0
+
 	switch vars.NumberType {
 	case typePercent:
 		value *= 100
+		shift += 2
 	case typePermille:
 		value *= 1000
+		shift += 3
 	}
 
 	exponent := 0
@@ -158,11 +167,13 @@ func FormatNumber(value float64, picture string, format DecimalFormat) (string, 
 		for value != 0 && value < minMantissa {
 			value *= 10
 			exponent--
+			shift++
 		}
 
 		for value > maxMantissa {
 			value /= 10
 			exponent++
+			shift--
 		}
 
 		value *= sign
@@ -170,7 +181,7 @@ func FormatNumber(value float64, picture string, format DecimalFormat) (string, 
 
 	var integerPart, fractionalPart, exponentPart string
 
-	value = round(value, vars.MaxFractionalSize)
+	value = roundShifted(original, shift, vars.MaxFractionalSize)
 	s := makeNumberString(value, vars.MaxFractionalSize, &format)
 	sint, sfrac := splitStringAtByte(s, '.')
 	if sint != "" {
@@ -762,6 +773,65 @@ func indexInt(values []int, want int) int {
 		}
 	}
 	return -1
+}
+
+// roundShifted returns x * 10^shift rounded half-to-even to prec
+// fractional digits. It works on the shortest decimal that denotes x
+// (the number the user sees) with exact arithmetic: multiplying a
+// float64 by a power of ten is not exact, so values next to a tie
+// (0.49999999999999994 with "0", 0.10155 with "0.00%", 1035 with
+// "0.00e0") were rounded the wrong way.
+func roundShifted(x float64, shift, prec int) float64 {
+
+	if x == 0 || math.IsNaN(x) || math.IsInf(x, 0) {
+		return round(x, prec)
+	}
+	if prec > 400 || shift+prec > 1100 || shift+prec < -1100 {
+		return round(x*math.Pow10(shift), prec)
+	}
+
+	r, ok := new(big.Rat).SetString(strconv.FormatFloat(x, 'e', -1, 64))
+	if !ok {
+		return round(x*math.Pow10(shift), prec)
+	}
+
+	pow10 := func(n int) *big.Rat {
+		return new(big.Rat).SetInt(new(big.Int).Exp(big.NewInt(10), big.NewInt(int64(n)), nil))
+	}
+
+	// Scale so that the digit to round to is the last integer digit.
+	if k := shift + prec; k >= 0 {
+		r.Mul(r, pow10(k))
+	} else {
+		r.Quo(r, pow10(-k))
+	}
+
+	// n is the floor of the scaled value (Div is Euclidean
+	// division and the denominator is positive).
+	n := new(big.Int).Div(r.Num(), r.Denom())
+	rem := new(big.Rat).Sub(r, new(big.Rat).SetInt(n))
+
+	switch rem.Cmp(big.NewRat(1, 2)) {
+	case 1:
+		n.Add(n, big.NewInt(1))
+	case 0:
+		if n.Bit(0) == 1 {
+			n.Add(n, big.NewInt(1))
+		}
+	}
+
+	res := new(big.Rat).SetInt(n)
+	if prec >= 0 {
+		res.Quo(res, pow10(prec))
+	} else {
+		res.Mul(res, pow10(-prec))
+	}
+
+	f, _ := res.Float64()
+	if f == 0 {
+		return 0
+	}
+	return f
 }
 
 func round(x float64, prec int) float64 {
